@@ -42,7 +42,7 @@ CHECKS = {
    design_ref="DESIGN.md section 6, C12",
    note="Trusted: TLC, projection code. 'Shares no mutable storage' is decided observationally (the other copy never moves, the two copies answer every later call alike, no sanitizer or leak event), not by pointer analysis."),
  "C04": dict(
-   technique="TLC-checked TLA+ specification of the three bitmap text formats (printers, documented-grammar parsers, snprintf/sscanf relations: spec/BitmapStr.tla, MC_BitmapStr.tla); model histories are replayed on the ASan-built library with guard bytes and the recorded traces are validated by TLC (spec/TraceBitmapStr.tla)",
+   technique="TLC-checked TLA+ specification of the three bitmap text formats (printers, documented-grammar parsers, snprintf/sscanf relations: spec/BitmapStr.tla, MC_BitmapStr.tla); model histories - unions of boundary blocks, and a model-computed text-length ladder (a witness for every producible text length up to 264 / 520 characters per format, finite and infinite, printed at the buffer lengths around its own length) - are replayed on the ASan-built library with guard bytes and the recorded traces are validated by TLC (spec/TraceBitmapStr.tla)",
    category="model_checking",
    text="The property relations are checked exhaustively on structured value families (every buffer length 0..needed+1, NULL/0, asprintf agreement, round trips, documented grammar variants) and every enumerated history is validated against the real code; hostile strings are sampled from the seed and judged by the weak contract plus print-then-parse stability. Bounded: values, widths and strings are finite families.",
    design_ref="DESIGN.md section 6, C04",
